@@ -10,4 +10,12 @@ theorem ut_wiring :
     Gen.ut_apply_expr = "fn(result, tuple(((before, after) if ax == i else neutral for i in range(result.ndim))))"
     ∧ Gen.template_expr = "return np.fft.rfft2(self.get_mask(sig_shape))" := ⟨rfl, rfl⟩
 
+/-- what `UserTemplate.get_mask` starts from and returns (a copy in the template's dtype) -/
+theorem user_mask_is_a_copy :
+    Gen.ut_init_expr = "self.template.copy()"
+    ∧ Gen.ut_return_expr = "result.astype(self.template.dtype)"
+    ∧ Gen.ut_tail = "assert result.shape == tuple(sig_shape) ; return result.astype(self.template.dtype)" := by
+  refine ⟨rfl, rfl, rfl⟩
+
+
 end C16
